@@ -229,7 +229,7 @@ def syntactic(repo):
 
 def witness_case(task, cover):
     if task.name == "send_msg":
-        return sc.conn_native_case("send_msg", cover["inputs"])
+        return sc.conn_native_case("send_msg", cover["inputs"], begin_ok=False)
     return None
 
 
@@ -243,7 +243,7 @@ def witness_agrees(task, cover, engine, obs):
 
 def replay_case(task, vc):
     if task.name == "send_msg":
-        return {"family": "conn", "case": sc.conn_native_case("send_msg", vc["model"])}
+        return {"family": "conn", "case": sc.conn_native_case("send_msg", vc["model"], begin_ok=False)}
     return None
 
 
